@@ -2,16 +2,28 @@ use crate::passes::CfgError;
 use crate::passes::GenerationPass;
 
 pub struct EcallTerminationPass;
-impl GenerationPass for EcallTerminationPass {
-    fn run(cfg: &mut crate::cfg::Cfg) -> Result<(), Box<CfgError>> {
+impl EcallTerminationPass {
+    /// Remove the edges that leave ecalls known to end the program.
+    ///
+    /// Returns true if any edge was removed.
+    pub fn terminate(cfg: &mut crate::cfg::Cfg) -> bool {
+        let mut removed = false;
         for node in cfg.iter() {
-            if node.is_program_exit() {
+            if node.is_program_exit() && !node.nexts().is_empty() {
                 for temp_node in node.nexts().clone() {
                     temp_node.remove_prev(&node);
                 }
                 node.clear_nexts();
+                removed = true;
             }
         }
+        removed
+    }
+}
+
+impl GenerationPass for EcallTerminationPass {
+    fn run(cfg: &mut crate::cfg::Cfg) -> Result<(), Box<CfgError>> {
+        Self::terminate(cfg);
         Ok(())
     }
 }
